@@ -38,7 +38,7 @@ def type_diffs(ctx):
 def run(ctx):
     with vlib.Lock():
         ok_go = ctx.phase(ctx.build_go)
-        ok_gen = ok_go and ctx.phase(ctx.regen, ["xdr", "dispatch"])
+        ok_gen = ok_go and ctx.phase(ctx.regen, (lambda base: base + [p for p in vlib.gen_parts_of(MODULE) if p not in base])(["xdr", "dispatch"]))
         if ok_gen:
             if ctx.phase(ctx.prove, MODULE) and ctx.phase(ctx.audit, MODULE) and ctx.tier == "thorough":
                 ctx.phase(ctx.leanchecker, MODULE)
@@ -98,7 +98,7 @@ def run(ctx):
                             line = parts[1] if len(parts) > 1 else ""
                             w = line.split()
                             key = "xdr:" + (w[1] if len(w) > 1 else "?")
-                            if w and w[0] in ("disp", "dispt"):
+                            if w and w[0] in ("disp", "dispt", "dispr"):
                                 key = "dispatch:%s/%s" % (w[1], w[3])
                             ctx.add_violation(key, parts[0], {"input": {"line": line},
                                                               "how": "harness xdr / dispatch line, replayed through the real Xdr methods",
